@@ -269,11 +269,11 @@ func (m *Machine) zeroInto(dst []Value, t types.Type) []Value {
 		switch {
 		case u.Info()&types.IsInteger != 0:
 			w, _ := intWidth(u)
-			return append(dst, BV{W: w})
+			return append(dst, boxInt(w, 0))
 		case u.Info()&types.IsBoolean != 0:
-			return append(dst, BoolV{})
+			return append(dst, boxedFalse)
 		case u.Info()&types.IsString != 0:
-			return append(dst, Str{})
+			return append(dst, boxedEmptyStr)
 		case u.Info()&types.IsFloat != 0:
 			return append(dst, F64(0))
 		case u.Info()&types.IsComplex != 0:
@@ -285,9 +285,9 @@ func (m *Machine) zeroInto(dst []Value, t types.Type) []Value {
 		}
 		panic("zero: basic " + u.String())
 	case *types.Pointer:
-		return append(dst, Ptr{})
+		return append(dst, boxedNilPtr)
 	case *types.Slice:
-		return append(dst, Slice{})
+		return append(dst, Slice{es: m.sizeOf(u.Elem())})
 	case *types.Map:
 		return append(dst, (*MapObj)(nil))
 	case *types.Chan:
@@ -295,7 +295,7 @@ func (m *Machine) zeroInto(dst []Value, t types.Type) []Value {
 	case *types.Signature:
 		return append(dst, (*Closure)(nil))
 	case *types.Interface:
-		return append(dst, Iface{})
+		return append(dst, boxedNilIface)
 	case *types.Struct:
 		for i := 0; i < u.NumFields(); i++ {
 			dst = m.zeroInto(dst, u.Field(i).Type())
@@ -620,3 +620,7 @@ func describe(v Value) string {
 	}
 	return fmt.Sprintf("%T", v)
 }
+
+var boxedEmptyStr Value = Str{}
+var boxedNilPtr Value = Ptr{}
+var boxedNilIface Value = Iface{}
